@@ -139,3 +139,39 @@ fn f1_oversize_write_then_retry() {
     let got = r.read_message(&m[..n], &mut p).expect("retried message must be accepted");
     assert_eq!(&p[..got], b"ok");
 }
+
+/// F7 (C11): an out-of-phase read must report the state error even when the message is over-long.
+/// Before the fix the three read entry points tested the 65535-byte limit first and returned Error::Input.
+#[test]
+fn f7_out_of_phase_oversized_read() {
+    use snow::error::{Error, StateProblem};
+    let big = vec![0u8; 70_000];
+    let mut out = vec![0u8; 70_000];
+    // initiator at the start: it is its turn to write, so a read is out of turn
+    let (mut i, mut r) = xx();
+    assert!(matches!(i.read_message(&big, &mut out), Err(Error::State(StateProblem::NotTurnToRead))));
+    // finished handshake
+    let mut m = vec![0u8; 1024];
+    let mut p = vec![0u8; 1024];
+    let n = i.write_message(&[], &mut m).unwrap();
+    r.read_message(&m[..n], &mut p).unwrap();
+    let n = r.write_message(&[], &mut m).unwrap();
+    i.read_message(&m[..n], &mut p).unwrap();
+    let n = i.write_message(&[], &mut m).unwrap();
+    r.read_message(&m[..n], &mut p).unwrap();
+    assert!(matches!(r.read_message(&big, &mut out), Err(Error::State(StateProblem::NotTurnToRead))));
+    assert!(matches!(i.read_message(&big, &mut out), Err(Error::State(StateProblem::HandshakeAlreadyFinished))));
+    // one-way pattern: the initiator can never read in transport mode
+    let params: snow::params::NoiseParams = "Noise_N_25519_ChaChaPoly_BLAKE2s".parse().unwrap();
+    let rk = snow::Builder::new(params.clone()).generate_keypair().unwrap();
+    let mut ni = snow::Builder::new(params.clone()).remote_public_key(&rk.public).unwrap().build_initiator().unwrap();
+    let n = ni.write_message(&[], &mut m).unwrap();
+    let _ = n;
+    let params2: snow::params::NoiseParams = "Noise_N_25519_ChaChaPoly_BLAKE2s".parse().unwrap();
+    let mut ni2 = snow::Builder::new(params2).remote_public_key(&rk.public).unwrap().build_initiator().unwrap();
+    ni2.write_message(&[], &mut m).unwrap();
+    let mut t = ni.into_transport_mode().unwrap();
+    assert!(matches!(t.read_message(&big, &mut out), Err(Error::State(StateProblem::OneWay))));
+    let st = ni2.into_stateless_transport_mode().unwrap();
+    assert!(matches!(st.read_message(0, &big, &mut out), Err(Error::State(StateProblem::OneWay))));
+}
